@@ -132,7 +132,7 @@ impl KeyRange {
     }
 //@ END
 
-//@ FROM src/key_range.rs :: impl KeyRange :: fn aggregate :: OBL C07.6
+//@ FROM src/key_range.rs :: impl KeyRange :: fn aggregate :: OBL C07.6, C01.10
 //@ SUBST `impl Iterator < Item = & 'a Self >` ==> `SeqIter<&'a KeyRange>`
     fn aggregate<'a>(mut iter: SeqIter<&'a KeyRange>) -> /*+*/(r: /*-*/Self/*+*/)
         ensures
